@@ -160,7 +160,7 @@ func parseRaces(se string) []raceReport {
 		grab := false
 		var owners []string
 		ownerSet := false
-		for _, ln := range lines {
+		for li, ln := range lines {
 			t := strings.TrimSpace(ln)
 			if strings.HasSuffix(t, ":") && (strings.Contains(t, " at 0x") || strings.HasPrefix(t, "Previous ")) {
 				grab = true
@@ -178,6 +178,11 @@ func parseRaces(se string) []raceReport {
 				fn := t
 				if i := strings.LastIndex(fn, "("); i > 0 {
 					fn = fn[:i]
+				}
+				// a closure of the library that the compiler inlined into a caller in
+				// package main carries the caller's name and the library's file
+				if li+1 < len(lines) && fileInSdfx(strings.TrimSpace(lines[li+1])) && !strings.Contains(fn, "github.com/deadsy/sdfx/") {
+					fn = "github.com/deadsy/sdfx/(inlined)" + fn
 				}
 				r.TopFuncs = append(r.TopFuncs, fn)
 				if !ownerSet && !isStdlibFrame(fn) {
@@ -232,6 +237,23 @@ func parseRaces(se string) []raceReport {
 		out = append(out, r)
 	}
 	return out
+}
+
+// fileInSdfx: the position line of a frame ("/path/sdf/utils.go:152 +0x4e") names a
+// file of the library tree (not the module cache, not the harness).
+func fileInSdfx(pos string) bool {
+	if !strings.HasPrefix(pos, "/") || strings.Contains(pos, "/pkg/mod/") || strings.Contains(pos, "/sim/cmd/") || strings.Contains(pos, "/sim/simcore/") {
+		return false
+	}
+	if i := strings.Index(pos, ".go:"); i > 0 {
+		pos = pos[:i]
+	}
+	for _, d := range []string{"/sdf/", "/render/", "/render/dc/", "/obj/", "/vec/"} {
+		if i := strings.LastIndex(pos, d); i >= 0 && !strings.Contains(pos[:i], "/src/") {
+			return true
+		}
+	}
+	return false
 }
 
 // isStdlibFrame: runtime and standard-library frames act on behalf of their
